@@ -32,6 +32,7 @@ type Scenario struct {
 	MaxLeaves   int       `json:"maxLeaves"`
 	Tag         string    `json:"tag"`
 	Reps        int       `json:"reps"` // wl: construct the list this many times from permuted/duplicated input, report distinct outcomes
+	Line        int       `json:"line"` // mode "line": index of the draw whose every value is tried while all other draws stay fixed
 }
 
 type LeafEv struct {
@@ -44,10 +45,10 @@ type LeafEv struct {
 	Unann int      `json:"unann"`
 	Det   int      `json:"det"` // 1 same result on the re-run with other representatives/chunking, 0 differs, -1 not re-run
 	Res   GenRes   `json:"res"`
-	PathW []int    `json:"w"`    // cell denominator / product of bounds, as limbs (filled for complete cells)
+	PathW []int    `json:"w"`     // cell denominator / product of bounds, as limbs (filled for complete cells)
 	ND    int      `json:"nd"`    // number of draws made (D is cut after 1200 entries)
 	Trunc int      `json:"trunc"` // 1: D was cut
-	Conc  int      `json:"conc"` // 1: a call made concurrently with others under real randomness (no draws recorded)
+	Conc  int      `json:"conc"`  // 1: a call made concurrently with others under real randomness (no draws recorded)
 }
 
 type CellEv struct {
